@@ -47,6 +47,25 @@ extern "C" fn on_signal(sig: i32) {
     }
 }
 
+/// Write a crash record for the case in flight with a free-form reason and exit like a crash.
+pub fn report_and_exit(reason: &str) -> ! {
+    unsafe {
+        let fd = FD.load(Ordering::Relaxed);
+        if fd >= 0 {
+            let hdr = b"CRASH ";
+            write(fd, hdr.as_ptr(), hdr.len());
+            write(fd, reason.as_ptr(), reason.len());
+            write(fd, b" :: ".as_ptr(), 4);
+            let _ = INFLIGHT.try_with(|c| {
+                let (buf, len) = &*c.get();
+                write(fd, buf.as_ptr(), *len);
+            });
+            write(fd, b"\n".as_ptr(), 1);
+        }
+        _exit(CRASH_EXIT);
+    }
+}
+
 /// Install handlers for SIGSEGV, SIGBUS, SIGILL, SIGFPE, SIGABRT; crash report goes to `path`.
 pub fn install(path: &str) {
     let mut p = path.as_bytes().to_vec();
